@@ -275,8 +275,9 @@ def _stream_belongs(pid, m):
 
 def _streams(run):
     pid = run.pid
-    max_streams = (1 if pid == "C12" else 2) + (1 if run.thorough else 0)
-    depth = 3 if run.thorough else 2
+    # C12 is about one stream: exhaustive walks can go deeper; C13 needs the forest (slices of slices): the relation is much wider, so
+    # exhaustive depth stays at 2 and the thorough tier adds a third live stream and a large seeded sample of long walks
+    max_streams = 1 if pid == "C12" else (3 if run.thorough else 2)
     backends = ["mem", "memslice", "fileslice"] + (["file"] if pid == "C13" else [])
     harness = run.harness("stream_walk")
     work = os.path.join(vlib.scratch(), "sw")
@@ -300,13 +301,22 @@ def _streams(run):
             jobs.append((cname, b, g["file"]))
     from concurrent.futures import ThreadPoolExecutor
 
+    def depth_for(cname, backend):
+        # an exhaustive walk replays its prefix from a fresh object and about half of all steps end in an exception: ~10 us per step in the
+        # sanitizer build.  Depth 2 (17 k walks per content and backend) is the quick tier; depth 3 (2.3 M walks) runs in the thorough tier
+        # on the memory backends, where no file has to be opened per walk
+        n = len(STREAM_CONTENTS[cname])
+        if pid == "C12" and run.thorough and not backend.startswith("file") and n <= 4:
+            return 4 if n <= 1 else 3
+        return 2
+
     def one(job):
         cname, b, relfile = job
         wd = os.path.join(work, f"{cname}_{b}")
         os.makedirs(wd, exist_ok=True)
         return job, vlib.run_isolated([harness, "--rel", relfile, "--content", ",".join(map(str, STREAM_CONTENTS[cname])) or ",",
-                                       "--backend", b, "--depth", str(depth), "--random", "3000" if run.thorough else "500",
-                                       "--len", "60", "--workdir", wd, "--seed", str(vlib.SEED)], max_crashes=120)
+                                       "--backend", b, "--depth", str(depth_for(cname, b)), "--random", "40000" if run.thorough else "1500",
+                                       "--len", "60", "--workdir", wd, "--seed", str(vlib.SEED)], max_crashes=120, timeout=3400)
     with ThreadPoolExecutor(max_workers=vlib.NPROC) as ex:
         results = list(ex.map(one, jobs))
     for (cname, b, _), res in results:
@@ -314,7 +324,7 @@ def _streams(run):
         run.steps += res["summary"].get("steps", 0)
         run.add_mismatches(res["mismatches"], lambda m: _stream_belongs(pid, m))
         run.part(f"StreamReader walk {cname}/{b}", walks=res["summary"].get("walks", 0), steps=res["summary"].get("steps", 0),
-                 depth=depth, max_streams=max_streams, crashes=res["crashes"])
+                 depth=depth_for(cname, b), max_streams=max_streams, crashes=res["crashes"])
 
 
 def c12(run):
